@@ -21,7 +21,7 @@ func init() {
 			"oracle: parser.Parse(text).Value equals the generator's tree node by node (kinds, field roles, literal values, left-nested infix chains, declarations and origins), zero parse errors, and every range equals the span recorded by the printer, in characters; " +
 			"non-trivial = the layout is not the default one or the script has a composite source/destination; distinct = rendered text",
 		Assumptions: []string{"the reference lexer (harness/ref/syntax.go) decides which layouts keep the token sequence", "numbers are compared as int64 (literals beyond int64 are C14's subject)"},
-		QuickBudget: 70 * time.Second,
+		QuickBudget: 240 * time.Second,
 		ThoroBudget: 12 * time.Minute,
 		Run:         runC15,
 	})
